@@ -8,3 +8,6 @@ pub use mlkem::MlKem512 as MlKem;
 
 #[cfg(feature = "mlkem-768")]
 pub use mlkem::MlKem768 as MlKem;
+
+#[cfg(feature = "cosmian_cover_crypt_verif")]
+pub use crate::verif_model::toy_kem::ToyKem as MlKem;
